@@ -542,6 +542,39 @@ func (m *ModSpec) ResolveAt(fx *FnExec, pkg *types.Package, names []string, argV
 				continue
 			}
 			ms.At = append(ms.At, AtMod{Key: "BigVal", Idx: args[idx]})
+		case strings.HasPrefix(it, "callback(") && strings.HasSuffix(it, ")"):
+			// whatever the function value passed for that parameter may write: known when the argument is
+			// a closure or function literal visible at the call site, everything otherwise
+			pname := it[9 : len(it)-1]
+			idx := -1
+			for i, n := range names {
+				if n == pname {
+					idx = i
+				}
+			}
+			if idx < 0 || idx >= len(argVals) {
+				ms.All = true
+				continue
+			}
+			var cfn *ssa.Function
+			if mc := fx.closureOf(argVals[idx]); mc != nil {
+				cfn, _ = mc.Fn.(*ssa.Function)
+			} else if f, ok := argVals[idx].(*ssa.Function); ok {
+				cfn = f
+			}
+			if cfn == nil {
+				ms.All = true
+				continue
+			}
+			cms := fx.g.eff.lookup(cfn)
+			if cms == nil || cms.All {
+				ms.All = true
+				continue
+			}
+			for k := range cms.Keys {
+				ms.Add(k)
+			}
+			ms.At = append(ms.At, cms.At...)
 		case strings.HasPrefix(it, "obj(") && strings.HasSuffix(it, ")"):
 			pname := it[4 : len(it)-1]
 			idx := -1
